@@ -25,3 +25,16 @@ func VerifView(a Allocator) (physNs int64, logical int64, lastSavedNs int64) {
 	}
 	return
 }
+
+// VerifDifferentiate calls the unexported differentiateLogical with the given suffix.
+func VerifDifferentiate(raw int64, suffixBits int, suffix int) int64 {
+	t := &timestampOracle{suffix: suffix}
+	return t.differentiateLogical(raw, suffixBits)
+}
+
+// VerifMaxSuffix exposes the allocator manager's cached max suffix.
+func (am *AllocatorManager) VerifMaxSuffix() int32 {
+	am.mu.RLock()
+	defer am.mu.RUnlock()
+	return am.mu.maxSuffix
+}
